@@ -29,6 +29,7 @@ type hnode struct {
 	typ       el.NodeType
 	closeErr  bool
 	reopenErr bool
+	failOnce  bool // the injected Reopen failure happens on the first call of the probe only (a retry would succeed)
 	wrapped   bool
 	bypassed  int
 	mu        sync.Mutex
@@ -94,6 +95,9 @@ func (n *hnode) reopenCounted() error {
 	n.mu.Lock()
 	n.reopened++
 	fail := n.reopenErr
+	if fail && n.failOnce {
+		n.reopenErr = false
+	}
 	n.mu.Unlock()
 	if fail {
 		return injectedFailure("reopen", n.obj)
@@ -530,6 +534,7 @@ func (w *world) apply(op Op, closeFails map[int]bool) Obs {
 			h.mu.Lock()
 			h.reopened = 0
 			h.reopenErr = h.obj == op.Fail && op.Fail != 0
+			h.failOnce = op.V == 1
 			h.mu.Unlock()
 		}
 		err := w.b.Reopen(ctx)
@@ -878,7 +883,7 @@ func genBFS(e *emitter, maxDepth, budget int, withReopen bool, seedOps []Op) (de
 						}
 					}
 					for f := 1; f <= nobj; f++ {
-						c.Ops = append(c.Ops, Op{K: "reopen", Fail: f})
+						c.Ops = append(c.Ops, Op{K: "reopen", Fail: f}, Op{K: "reopen", Fail: f, V: 1})
 					}
 				}
 				obs := e.emit(c)
@@ -965,7 +970,7 @@ func genRandom(e *emitter, r *hc.Rand, n, maxLen int) {
 				if nobj > 0 && r.Bool() {
 					f = 1 + r.Intn(nobj)
 				}
-				ops = append(ops, Op{K: "reopen", Fail: f, Wrap: r.Intn(2)})
+				ops = append(ops, Op{K: "reopen", Fail: f, Wrap: r.Intn(2), V: int64(r.Intn(3) / 2)})
 			}
 		}
 		ops = numberObjs(ops)
@@ -1156,7 +1161,7 @@ func genRebind(e *emitter) {
 				if again {
 					ops = append(ops, Op{K: "regpipe", Pid: 1, Ety: 1, IDs: ids, Pol: []int{0, 2}[pos%2]})
 				}
-				ops = append(ops, Op{K: "reopen"}, Op{K: "reopen", Fail: 5}, Op{K: "reopen", Fail: ids[pos]}, Op{K: "rpan", Pid: 1, Ety: 1}, Op{K: "reopen"})
+				ops = append(ops, Op{K: "reopen"}, Op{K: "reopen", Fail: 5}, Op{K: "reopen", Fail: ids[pos]}, Op{K: "reopen", Fail: 5, V: 1}, Op{K: "rpan", Pid: 1, Ety: 1}, Op{K: "reopen"})
 				e.emit(Case{Gen: "rebind", Types: []int{1, 2}, Ops: numberObjs(ops)})
 			}
 		}
